@@ -81,7 +81,7 @@ func c04(x *Ctx) {
 			}
 		}
 	}
-	c.Min(rMB, 4)
+	c.Min(rMB, 3)
 
 	// ---- clause 2: which rate --------------------------------------------------------
 	const rSrc = "C04.rate-source"
